@@ -1,0 +1,110 @@
+//go:build verif
+
+package syncx
+
+// Contracts for the deductive verifier in /verif (govc). Comment-only file: adds no code.
+
+// ---- Limit: a borrow is a successful send on the buffered pool channel, a return a successful receive ----
+//@ func (Limit).TryBorrow
+//@   prop C18
+//@   ensures [borrowed-iff-slot] result == (calls(on("send", l.pool)) == 1) && calls("send") <= 1
+//@ func (Limit).Return
+//@   prop C18
+//@   ensures [return-needs-borrow] (result == nil) == (calls(on("recv", l.pool)) == 1) && (result != nil ==> result == ErrLimitReturn)
+
+// ---- Cond.WaitWithTimeout: signalled => remaining = timeout - elapsed; timed out => 0, false ----
+//@ func (*Cond).WaitWithTimeout
+//@   prop C18
+//@   requires c != nil
+//@   ensures [signalled] result1 ==> result0 == timeout - (ret(timex.Now, 0, 2) - ret(timex.Now, 0, 1)) && calls(on("recv", c.signal)) == 1
+//@   ensures [timed-out] !result1 ==> result0 == 0
+//@   ensures [timer] calls(time.NewTimer, timeout) == 1 && calls(Stop) == 1
+
+// ---- TimeoutLimit.Borrow: every round waits for the time that REMAINS; a timeout is reported only when none remains ----
+//@ func (TimeoutLimit).Borrow
+//@   prop C18
+//@   opaque WaitWithTimeout, TryBorrow
+//@   loop 1 iteration-ensures [waits-for-the-remaining-time] calls(WaitWithTimeout) == 1 && arg(WaitWithTimeout, 1) == at_head(timeout) && timeout == ret(WaitWithTimeout, 0)
+//@   loop 1 iteration-ensures [keeps-trying-while-time-remains] timeout > 0
+//@   ensures [immediate] ret(TryBorrow, 0, 1) ==> result == nil && calls(WaitWithTimeout) == 0
+//@   ensures [timeout-only-when-elapsed] result != nil ==> result == ErrTimeout && local(timeout) <= 0 && local(timeout) == ret(WaitWithTimeout, 0)
+//@   ensures [success-means-borrowed] result == nil && !ret(TryBorrow, 0, 1) ==> ret(WaitWithTimeout, 1) && calls(TryBorrow) >= 1
+//@ func (TimeoutLimit).Return
+//@   prop C18
+//@   opaque Signal
+//@   ensures [signal-on-return] (result == nil) == (ret(l.limit.Return) == nil) && (calls(Signal) == 1) == (result == nil) && result == ret(l.limit.Return)
+
+// ---- Pool: never more than `limit` live resources; an idle resource past maxAge is destroyed, not handed out ----
+//@ func (*Pool).Get
+//@   prop C18
+//@   requires p != nil && p.created <= p.limit
+//@   let h0 = at_head(p.head)
+//@   loop 1 invariant p.created <= p.limit
+//@   loop 1 iteration-ensures [expired-destroyed-or-waited] (h0 != nil ==> p.created == at_head(p.created) - 1 && calls(destroy) == 1 && arg(destroy, 0) == at_head(p.head.item) && p.head == at_head(p.head.next) && p.maxAge > 0 && at_head(p.head.lastUsed) + p.maxAge < ret(timex.Now))
+//@     | && (h0 == nil ==> calls(Wait) == 1 && p.created == at_head(p.created) && at_head(p.created) >= p.limit)
+//@   ensures [bounded] p.created <= p.limit
+//@   ensures [reuse-or-create] calls(create) <= 1 && (calls(create) == 1 ==> result == ret(create))
+//@   ensures [unlock-once] calls(Unlock) == 1 && calls(Lock) == 1
+//@ func (*Pool).Put
+//@   prop C18
+//@   opaque Signal
+//@   requires p != nil
+//@   ensures [nil-ignored] x == nil ==> p.head == old(p.head) && calls(Lock) == 0
+//@   ensures [pushed] x != nil ==> p.head != nil && p.head.item == x && p.head.next == old(p.head) && p.head.lastUsed == ret(timex.Now) && fresh(p.head) && calls(Signal) == 1
+
+// ---- RefResource: cleaned exactly once, when the uses drop to zero; refuses further use ----
+//@ func (*RefResource).Use
+//@   prop C18
+//@   requires r != nil
+//@   ensures [refuses-after-clean] old(r.cleaned) ==> result == ErrUseOfCleaned && r.ref == old(r.ref)
+//@   ensures [counts] !old(r.cleaned) ==> result == nil && r.ref == old(r.ref) + 1
+//@ func (*RefResource).Clean
+//@   prop C18
+//@   requires r != nil
+//@   ensures [already-cleaned] old(r.cleaned) ==> calls(clean) == 0 && r.ref == old(r.ref) && r.cleaned
+//@   ensures [last-use-cleans] !old(r.cleaned) ==> r.ref == old(r.ref) - 1 && (calls(clean) == 1) == (r.ref == 0) && r.cleaned == (r.ref == 0)
+
+// ---- ResourceManager: the body that runs inside the single flight creates at most once and only when the key
+// is still absent; a failed create stores nothing; Close closes every resource once ----
+//@ func (*ResourceManager).Get$1
+//@   prop C18
+//@   requires m != nil && m.resources != nil
+//@   ensures [existing-no-create] old(has(m.resources, key)) ==> calls(create) == 0 && result0.val == old(m.resources[key]).val && result1 == nil
+//@   ensures [absent-creates-once] !old(has(m.resources, key)) ==> calls(create) == 1
+//@   ensures [create-error-stores-nothing] !old(has(m.resources, key)) && ret(create, 1) != nil ==> result1 == ret(create, 1) && !has(m.resources, key)
+//@   ensures [created-stored] !old(has(m.resources, key)) && ret(create, 1) == nil ==> has(m.resources, key) && m.resources[key] == ret(create, 0) && result1 == nil
+//@ func (*ResourceManager).Close
+//@   prop C18
+//@   opaque Add, Err
+//@   requires m != nil
+//@   loop 1 iteration-ensures [each-closed-once] calls(Close) == 1
+//@   ensures [emptied] m.resources == nil
+
+// ---- SingleFlight (sequential part): the leader runs fn once, publishes its result and removes the entry (also
+// when fn panics); a caller that finds an entry waits for it and takes the leader's result without running fn ----
+//@ func (*flightGroup).createCall
+//@   prop C18
+//@   requires g != nil && g.calls != nil
+//@   ensures [follower] old(has(g.calls, key)) ==> done && c == old(g.calls[key]) && calls("wg.Wait") == 1 && before(on("unlock", g.lock), "wg.Wait")
+//@   ensures [leader] !old(has(g.calls, key)) ==> !done && fresh(c) && has(g.calls, key) && g.calls[key] == c && calls("wg.Add") == 1 && before("wg.Add", on("unlock", g.lock))
+//@ func (*flightGroup).makeCall
+//@   prop C18
+//@   may-panic fn
+//@   requires g != nil && g.calls != nil && c != nil
+//@   ensures [runs-once] calls(fn) == 1 && c.val == ret(fn, 0) && c.err == ret(fn, 1)
+//@   ensures [entry-removed-then-released] !has(g.calls, key) && calls("wg.Done") == 1 && before(on("unlock", g.lock), "wg.Done")
+//@   panic-ensures [released-on-panic] !has(g.calls, key) && calls("wg.Done") == 1
+//@ func (*flightGroup).Do
+//@   prop C18
+//@   opaque createCall, makeCall
+//@   requires g != nil
+//@   ensures [shared] ret(createCall, 1) ==> calls(makeCall) == 0 && result0 == ret(createCall, 0).val && result1 == ret(createCall, 0).err
+//@   ensures [fresh] !ret(createCall, 1) ==> calls(g.makeCall, ret(createCall, 0), key, fn) == 1 && result0 == ret(createCall, 0).val && result1 == ret(createCall, 0).err
+
+// ---- LockedCalls: the entry for the key is installed under the lock before fn runs and removed before release ----
+//@ func (*lockedGroup).makeCall
+//@   prop C18
+//@   may-panic fn
+//@   requires lg != nil && lg.m != nil
+//@   ensures [exclusive-section] calls(fn) == 1 && calls(on("unlock", lg.mu)) == 2 && !has(lg.m, key) && calls("wg.Done") == 1 && result0 == ret(fn, 0) && result1 == ret(fn, 1)
+//@   panic-ensures [released-on-panic] !has(lg.m, key) && calls("wg.Done") == 1
